@@ -126,6 +126,10 @@ def merge_fn(acc, part):
     acc["opaque_calls"] = sorted(set(acc["opaque_calls"]) | set(part["opaque_calls"]))
     for k, v in part.get("raised", {}).items():
         acc["raised"][k] = acc["raised"].get(k, 0) + v
+    for k, v in part.get("call_feas", {}).items():
+        a = acc.setdefault("call_feas", {}).setdefault(k, [0, 0])
+        a[0] += v[0]
+        a[1] += v[1]
     acc["canaries"] += part.get("canaries", 0)
     acc["canary_proved"] += part.get("canary_proved", 0)
     if part["status"] != "ok" and acc["status"] == "ok":
@@ -184,6 +188,10 @@ def run_parallel(vf, contracts, jobs, first_chunk=24, chunk=100):
         if r["status"] == "ok" and r["feasible_exits"] == 0:
             r["status"] = "vacuous"
             r["message"] = "no feasible path reaches an exit of the function"
+        dead_calls = [k for k, v in r.get("call_feas", {}).items() if v[0] == 0 and v[1] > 0]
+        if r["status"] == "ok" and dead_calls:
+            r["status"] = "vacuous"
+            r["message"] = f"postcondition of callee(s) {dead_calls} contradicts the caller's state on every visit (contract error)"
         if r["status"] == "ok" and r.get("canary_proved", 0) > 0:
             r["status"] = "vacuous"
             r["message"] = "must-fail canary was proved: assumptions are inconsistent"
